@@ -69,4 +69,24 @@ PLAN = {
                 quick=[("c06", "release", 40000)],
                 thorough=[("c06", "release", 2000000), ("c06", "checked", 200000)],
                 assumptions=["no assumption about the position after a failed seek (the history re-seeks)"]),
+    "C08": dict(level="exploration",
+                rule=("each run fixes (signal, options), takes the one-call sample-writer encode on a perfect sink as golden, and "
+                      "encodes variants on their own simulated disks: every two-way split point of the input (units: samples, bytes "
+                      "or PCM frames by front-end), drawn multi-way chunkings with empty writes through all four front-ends, "
+                      "BufWriter capacities, benign write faults, non-zero stream offsets, and a trailing partial PCM frame; each "
+                      "variant is one evaluation; distinct = distinct I/O event sequences"),
+                exhaustive_subspaces=["family 0: every two-way split point 0..=total of the generated input for the drawn front-end"],
+                quick=[("c08", "release", 6000)],
+                thorough=[("c08", "release", 300000), ("c08", "checked", 30000)],
+                assumptions=["golden is computed from the same tree as the variants"]),
+    "C15": dict(level="exploration",
+                rule=("four parts: (grid) one run sweeps bits 0..=34 x channels 0..=9 x 8 declared totals for one constructor and one "
+                      "of 9 sample rates, every documented-legal cell must then round-trip; (options) setters at 0/interior/max/max+1 "
+                      "and a round trip with the accepted extremes; (stream writer) parameter sweep incl. the empty frame; (length "
+                      "contract) declared N vs delivered N-k/N/N+k through drawn chunkings on a simulated disk. Every constructor "
+                      "call / round trip is one evaluation"),
+                exhaustive_subspaces=["grid part: the full bits x channels x totals sub-grid for each (constructor, rate) slice drawn; 27 slices exist"],
+                quick=[("c15", "release", 600), ("c15", "checked", 300)],
+                thorough=[("c15", "release", 20000), ("c15", "checked", 6000)],
+                assumptions=[]),
 }
